@@ -3,7 +3,7 @@ from props.util import *
 
 rule = ("for every indicator except RSI: a base stream of positive prices / valid bars (walk, ties, periodic, grid, gaps; periods 1..5 and "
         "sampled larger) in slot 0 and the same stream with every price multiplied by c in slot 1: c = 2^k for k in {-40,-1,1,40} (quick) / all "
-        "k in -40..40 (thorough; 2^-40 and 2^40 always) compared within 1e-12 relative (bit-for-bit expected), c in {3, 0.1, 1e-5, 12345.678} within 1e-9; multipliers {0.5, 2, 25}; price-valued "
+        "k in -40..40 (thorough; 2^-70, 2^-40 and 2^40 always) compared within 1e-12 relative (bit-for-bit expected), c in {3, 0.1, 1e-5, 12345.678} within 1e-9; multipliers {0.5, 2, 25}; price-valued "
         "outputs must scale by c, dimensionless ones stay; slot 2 gets the stream shifted by d (of the order of the level, and 2^20..2^30 levels; SD/BB variances under the 2^30 shift at 1e-12*t*level*shifted level): SMA/EMA/WMA/MIN/MAX and "
         "band levels shift by d, SD/MAD/TR/ATR/MACD/FAST stay; slot 3 runs Minimum on the negated stream against Maximum. Comparisons are made "
         "where the outputs are finite and well-conditioned. Non-trivial: distinct (case, factor) longer than the period")
@@ -38,7 +38,7 @@ def gen_cases(ctx):
                 base = scalar_stream(r, n, r.choice(["walk", "ties", "periodic", "pgrid", "uniform", "segments"]), p=p, positive=True)
                 mk = lambda s_, x, f, d: ("n", s_, x * f + d)
             # both extreme units always (absolute thresholds hide there), one mild power of two, one non-power of two
-            factors = [2.0 ** k for k in ([-40, 40, r.choice([-1, 1])] if not ctx.thorough else [-40, 40] + r.sample(ks, 10))] + [r.choice([3.0, 0.1, 1e-5, 12345.678])]
+            factors = [2.0 ** k for k in ([-70, -40, 40, r.choice([-1, 1])] if not ctx.thorough else [-70, -40, 40, 70] + r.sample(ks, 10))] + [r.choice([3.0, 0.1, 1e-5, 12345.678])]
             for fi, f in enumerate(factors):
                 # shifts: of the order of the price level, and (last factor) 2^20 or 2^30 times it, where a shift-invariant
                 # statistic must still be unchanged within the rounding of its (now large) inputs
